@@ -15,7 +15,9 @@ use bump_scope::alloc::{AllocError, Allocator};
 use crate::rng::Rng;
 
 pub const REGION_SIZE: usize = 64 << 20;
-pub const REGION_ALIGN: usize = 2 << 20;
+// as aligned as it is large: every alignment decision inside the region is then the same in every process
+// (requests with a larger alignment cannot be satisfied inside the region at all)
+pub const REGION_ALIGN: usize = REGION_SIZE;
 pub const RED: usize = 64;
 /// Anything larger is refused (and logged): this is how giant layouts are observed without memory.
 pub const HUGE: usize = 8 << 20;
